@@ -10,7 +10,8 @@ from ..model import sem, gen, flat, render
 
 PROPERTY = "C09"
 LEVEL = "exploration"
-RULE = ("(1) cross-process metamorphic: generated scenarios (class with several rand sets, a list with foreach, dist, "
+RULE = ("(1) cross-process metamorphic: generated scenarios (class with several rand sets, a list with foreach and with "
+        "constant-subscript element references that merge rand sets, dist, "
         "solve_order, soft; explicit RandState seed or global random.seed; history of randomize / randomize_with / new "
         "instance / reseed / unsatisfiable call) are executed in fresh child processes under a baseline and under variants "
         "covering every level of PYTHONHASHSEED {0,1,4242}, global random.seed {1,2} (explicit-state scenarios), unrelated "
@@ -80,6 +81,18 @@ def scenarios(d):
         lists.append({"name": "l", "elem": {"kind": "bit", "w": 4}, "mode": "fixed", "size": d.randint(2, 4)})
         blocks.append({"name": "c1", "stmts": [["foreach", "l", "i", None,
                                                 [["expr", ["bin", "<", ["el", "l", ["iv", "i"], None], ["lit", d.randint(5, 15)]]]]]]})
+        if d.chance(60):
+            # statements naming single elements by a constant subscript next to scalar fields of another rand set: the
+            # order in which rand sets meet and merge decides the order of fields and solver variables
+            rs = [f for f in fs if f["rand"]]
+            j = d.randint(0, lists[0]["size"] - 1)
+            elj = ["el", "l", ["lit", j], None]
+            extra = [["expr", ["bin", d.choice(["!=", "<=", ">="]), ["f", rs[0]["name"]], ["f", rs[1]["name"]]]],
+                     ["expr", ["bin", d.choice([">", ">=", "!="]), elj, ["lit", d.randint(0, 3)]]],
+                     ["expr", ["bin", "!=", ["f", d.choice(rs[:2])["name"]], elj]]]
+            if d.chance(50):
+                extra.append(["expr", ["bin", "!=", ["el", "l", ["lit", (j + 1) % lists[0]["size"]], None], ["f", d.choice(rs)["name"]]]])
+            blocks.append({"name": "c2", "stmts": extra})
     cls = {"name": "T", "fields": fs, "lists": lists, "blocks": blocks}
     ops = []
     for _ in range(d.randint(3, 10)):
